@@ -139,6 +139,13 @@ def run_sequence(cvxopt, rng, nops, lines, obs):
         elif k < 0.72:
             op = rng.choice(['add', 'sub', 'mul'])
             x, tx = opd(); y, ty = opd()
+            if op == 'mul' and rng.random() < 0.5:
+                # a conformable matrix product of fresh operands: every pair of typecodes (the 'i' * 'i' product is cvxopt's own kernel, the
+                # others go to BLAS after conversion), non-square shapes, several columns, empty inner dimension
+                n1, n2 = rng.sample(names, 2)
+                mm, kk, nn = rng.randint(0, 3), rng.randint(0, 4), rng.randint(0, 3)
+                new(n1, rng.choice('iidz'), mm, kk); new(n2, rng.choice('iidz'), kk, nn)
+                x, tx, y, ty = env[n1], 'M' + n1, env[n2], 'M' + n2
             if tx[0] == 'n' and ty[0] == 'n': continue
             dst = rng.choice(names)
             def f():
